@@ -16,6 +16,16 @@ def new (digest : Felt) : Transcript := ⟨digest, 0⟩
 def randomFelt (H : Hashes) (t : Transcript) : Felt × Transcript :=
   (H.poseidon2 t.digest t.counter, { t with counter := t.counter + 1 })
 
+/-- `random_felts_to_prover(len)`: `len.val` single squeezes (`while len > 0 { push(random_felt_to_prover()); len -= 1 }`) -/
+def randomFeltsAux (H : Hashes) : Nat → Transcript → List Felt × Transcript
+  | 0, t => ([], t)
+  | n + 1, t =>
+    let (c, t') := randomFelt H t
+    let (cs, t'') := randomFeltsAux H n t'
+    (c :: cs, t'')
+
+def randomFelts (H : Hashes) (t : Transcript) (len : Felt) : List Felt × Transcript := randomFeltsAux H len.val t
+
 /-- `read_felt_from_prover` -/
 def readFelt (H : Hashes) (t : Transcript) (v : Felt) : Transcript :=
   ⟨H.poseidonMany [t.digest + 1, v], 0⟩
